@@ -74,6 +74,9 @@ func (v *vtrace) comment(s string) { fmt.Fprintf(v.w, "# %s\n", s) }
 
 func (v *vtrace) init(model int, cfg ...int64) {
 	v.cases++
+	if v.cases%16 == 1 {
+		v.w.Flush() // keep most of the trace when the runtime kills the process (fatal error, timeout)
+	}
 	fmt.Fprintf(v.w, "I %d", model)
 	for _, c := range cfg {
 		fmt.Fprintf(v.w, " %d", c)
@@ -96,6 +99,7 @@ func (v *vtrace) op(kind string, in []string, out []string) {
 func (v *vtrace) viol(msg string) {
 	v.hist["VIOLATIONS"]++
 	fmt.Fprintf(v.w, "V %s\n", strings.ReplaceAll(msg, "\n", " "))
+	v.w.Flush() // a violation must survive a later crash or timeout of the harness
 }
 
 func (v *vtrace) close() {
